@@ -60,10 +60,18 @@ theorem obj_stable (w : World) (c : Call) (r : Res) (h : Handle) (hl : h < w.han
 read-only descriptors. -/
 def DryCall : Call → Prop
   | .fopen _ | .fclose _ | .opendir _ | .readdir _ | .closedir _ | .openRd .. | .read _ | .close _ => True
+  -- the calls of evaluation (`command`, `isdirectory`, file-time `date` conditions: `EvalCall`)
+  | .openPath _ | .fork | .waitpid | .stat _ => True
   | _ => False
 
-theorem DryCall.quiet {c : Call} (h : DryCall c) : c.mutating = false ∧ c ≠ .fork := by
-  cases c <;> first | exact h.elim | exact ⟨rfl, fun e => by cases e⟩
+theorem DryCall.quiet {c : Call} (h : DryCall c) : c.mutating = false := by
+  cases c <;> first | exact h.elim | rfl
+
+theorem DryCall.of_evalCall {c : Call} (h : EvalCall c) : DryCall c := by
+  rcases h with h | h | h | ⟨x, h⟩ | ⟨x, h⟩ <;> subst h <;> exact True.intro
+
+theorem dry_calls_evalP (env : Env) (e : Expr) (m : Msg) (fl : MFlags) : Calls DryCall (evalP env e m fl) :=
+  calls_mono' (evalP_calls_of env e m fl) fun _ hc => DryCall.of_evalCall hc.evalCall
 
 macro "drycalls_step" : tactic =>
   `(tactic| first
@@ -102,7 +110,7 @@ theorem dry_calls_processMessage (env : PEnv) (orc : EvalOracles) (expr : Expr) 
     (hd : env.dryrun = true) : Calls DryCall (processMessage env orc expr md name st) := by
   unfold processMessage
   simp only [bind_eq, pure_eq, call_bind, hd, if_true]
-  repeat' (first | exact dry_calls_messageParseP _ _ _ _ | drycalls_step)
+  repeat' (first | exact dry_calls_messageParseP _ _ _ _ | exact dry_calls_evalP _ _ _ _ | drycalls_step)
 
 theorem dry_calls_walk (env : PEnv) (orc : EvalOracles) (expr : Expr) (hd : env.dryrun = true) (fuel : Nat) (md : Maildir)
     (st : MainSt) : Calls DryCall (walk env orc expr fuel md st) := by
@@ -159,6 +167,12 @@ theorem dryCall_core (w : World) (c : Call) (r : Res) (hc : DryCall c) (hns : No
   have hset : ∀ h o, (∀ fid buf, o ≠ Obj.stream fid buf) → (∃ h' o', w.setObj h o = w.setObj h' o' ∧ ∀ fid buf, o' ≠ .stream fid buf) :=
     fun h o ho => ⟨h, o, rfl, ho⟩
   cases c <;> try exact hc.elim
+  case openPath p =>
+    cases r <;> simp [core, applyOk]
+    exact .inr (.inr ⟨_, rfl, by intro _ _ e; cases e⟩)
+  case fork => left; cases r <;> simp [core, applyOk]
+  case waitpid => left; cases r <;> simp [core, applyOk]
+  case stat p => left; cases r <;> simp [core, applyOk]
   case fopen p =>
     cases r <;> simp [core, applyOk]
     exact .inr (.inr ⟨_, rfl, by intro _ _ e; cases e⟩)
@@ -317,7 +331,7 @@ theorem DryCoh.start (env : PEnv) (w : World) : DryCoh env w [] w :=
   ⟨fun _ _ => rfl, fun _ _ => rfl, rfl, Nat.le_refl _, fun _ _ h => (by cases h), fun _ _ h => (by cases h),
    fun _ _ _ h => (by cases h), fun _ _ h => (by cases h)⟩
 
-variable {env : PEnv} {w0 w : World} {pre : List (Call × Res)}
+variable {env : PEnv} {cm sa : Bool} {w0 w : World} {pre : List (Call × Res)}
 
 theorem DryCoh.isRoot (h : DryCoh env w0 pre w) {root : Bytes} (hr : dry_IsRoot pre root) : root = spoolRoot env := by
   obtain ⟨t, ht⟩ := hr
@@ -347,10 +361,10 @@ theorem DryCoh.dirPath (h : DryCoh env w0 pre w) {d : Handle} (hd : dry_IsDir pr
   · simp [World.dirPath, ho] at hp
     exact hp.symm
 
-theorem dryCall_notStdio {tr : List (Call × Res)} {c : Call} (h : DrySpoolCall env tr c) : Call.stdio c = false := by
+theorem dryCall_notStdio {tr : List (Call × Res)} {c : Call} (h : DrySpoolCall env cm sa tr c) : Call.stdio c = false := by
   cases c <;> first | rfl | exact h.elim
 
-theorem dryCall_notUtimens {tr : List (Call × Res)} {c : Call} (h : DrySpoolCall env tr c) : Call.isUtimens c = false := by
+theorem dryCall_notUtimens {tr : List (Call × Res)} {c : Call} (h : DrySpoolCall env cm sa tr c) : Call.isUtimens c = false := by
   cases c <;> first | rfl | exact h.elim
 
 /-- Appending a directory does not change what an existing path names. -/
@@ -363,7 +377,7 @@ theorem dir_append_of_isSome (w : World) (p q : Bytes) (hq : (w.dir q).isSome) :
   | some es => rfl
 
 /-- A call of a `-d -` run leaves every directory that existed in `w0` as it is. -/
-theorem DryCoh.dir_step (hs : DryStart env w0) (h : DryCoh env w0 pre w) (c : Call) (r : Res) (hc : DrySpoolCall env pre c)
+theorem DryCoh.dir_step (hs : DryStart env w0) (h : DryCoh env w0 pre w) (c : Call) (r : Res) (hc : DrySpoolCall env cm sa pre c)
     (q : Bytes) (hq : (w0.dir q).isSome) : (core w c r).dir q = w0.dir q := by
   have hwq : w.dir q = w0.dir q := h.dirs q hq
   have hqs : (w.dir q).isSome := by rw [hwq]; exact hq
@@ -373,6 +387,10 @@ theorem DryCoh.dir_step (hs : DryStart env w0) (h : DryCoh env w0 pre w) (c : Ca
   have plain : Call.dirOp c = false → (core w c r).dir q = w0.dir q := fun hd => by
     rw [dir_of_dirs (core_dirs w c r hd), hwq]
   cases c <;> try exact hc.elim
+  case openPath _ => exact plain rfl
+  case fork => exact plain rfl
+  case waitpid => exact plain rfl
+  case stat _ => exact plain rfl
   case fopen _ => exact plain rfl
   case fclose _ => exact plain rfl
   case opendir _ => exact plain rfl
@@ -431,7 +449,7 @@ theorem DryCoh.dir_step (hs : DryStart env w0) (h : DryCoh env w0 pre w) (c : Ca
     · exact hwq
 
 /-- ... and every file that existed in `w0`. -/
-theorem DryCoh.file_step (h : DryCoh env w0 pre w) (c : Call) (r : Res) (hc : DrySpoolCall env pre c)
+theorem DryCoh.file_step (h : DryCoh env w0 pre w) (c : Call) (r : Res) (hc : DrySpoolCall env cm sa pre c)
     (g : Nat) (hg : g < w0.nextFid) : (core w c r).file g = w0.file g := by
   rw [core_file w c r g (Nat.lt_of_lt_of_le hg h.nextFid) ?_, h.files g hg]
   have hfd : ∀ fd, dry_IsFd pre fd → objFid (w.obj fd) ≠ some g := by
@@ -486,7 +504,7 @@ theorem stable_step (w : World) (c : Call) (r : Res) (x : Handle) (hl : x < w.ha
   exact ⟨Nat.lt_of_lt_of_le hl (core_len w c r), obj_stable w c r x hl hst⟩
 
 theorem DryCoh.step (hs : DryStart env w0) (h : DryCoh env w0 pre w) (c : Call) (f : Option Fault)
-    (hc : DrySpoolCall env pre c) :
+    (hc : DrySpoolCall env cm sa pre c) :
     DryCoh env w0 (pre ++ [(c, faultResult f w c)]) (stepWorld w c (faultResult f w c)) := by
   have hst := dryCall_notStdio hc
   refine ⟨?_, ?_, ?_, ?_, ?_, ?_, ?_, ?_⟩
@@ -557,7 +575,7 @@ theorem DryCoh.step (hs : DryStart env w0) (h : DryCoh env w0 pre w) (c : Call) 
 after every call. -/
 theorem dryCoh_run {α} (plan : Plan) (hs : DryStart env w0) :
     ∀ (p : Prog α) (w : World) (i : Nat) (pre : List (Call × Res)), DryCoh env w0 pre w →
-      (∀ j x, (dry_planTrace plan p w i)[j]? = some x → DrySpoolCall env (pre ++ (dry_planTrace plan p w i).take j) x.1) →
+      (∀ j x, (dry_planTrace plan p w i)[j]? = some x → DrySpoolCall env cm sa (pre ++ (dry_planTrace plan p w i).take j) x.1) →
       (∀ w' ∈ (run plan p w i).2.2.2, ∃ pre', DryCoh env w0 pre' w') ∧
         DryCoh env w0 (pre ++ dry_planTrace plan p w i) (run plan p w i).2.1 := by
   intro p
@@ -567,7 +585,7 @@ theorem dryCoh_run {α} (plan : Plan) (hs : DryStart env w0) :
     exact ⟨by simp [run], by simpa [run, dry_planTrace] using h⟩
   | call c k ih =>
     intro w i pre h hcalls
-    have hc : DrySpoolCall env pre c := by
+    have hc : DrySpoolCall env cm sa pre c := by
       have := hcalls 0 (c, faultResult (plan i) w c) (by simp [dry_planTrace])
       simpa using this
     have h1 := h.step hs c (plan i) hc
